@@ -23,10 +23,10 @@ Definition flow (s s' : state) (t : nat) (p p' : pc) : Prop :=
   | WLock1 a => (p' = WLock1 a /\ same s s') \/ (p' = WLoad a /\ same_but s s' t (w_c a))
   | WLoad a => (m_count s < w_c a /\ p' = WQLock a /\ m_count s' = m_count s /\
                 g_refail s' = (if pend s t then true else g_refail s) /\ (forall y, semc s' y = semc s y))
-               \/ (w_c a <= m_count s /\ p' = WCas a (m_count s) /\ same s s')
+               \/ (w_c a <= m_count s /\ p' = WCas a (m_count s) /\ same s s' /\ (forall y, pend s' y = pend s y))
   | WCas a mc => (m_count s = mc /\ p' = WRet a 0 (w_c a) /\ m_count s' = mc - w_c a /\ g_refail s' = g_refail s /\
                   (forall y, semc s' y = semc s y) /\ pend s' t = false)
-                 \/ (p' = WLoad a /\ same s s')
+                 \/ (p' = WLoad a /\ same s s' /\ (forall y, pend s' y = pend s y))
   | WLock2 a r => same s s' /\ (p' = WLock2 a r \/ (r < 0 /\ p' = WFailLoad a r) \/ (0 <= r /\ p' = WLoad a))
   | WFailLoad a r => same s s' /\ ((m_count s = 0 /\ p' = WRet a r 0) \/ (exists e, p' = TRHead (CWaitFail a r e) (m_count s)))
   | WRet a r k => same_but s s' t 0 /\ (p' = Idle \/ p' = WLock1 a)
